@@ -58,6 +58,7 @@ type peer struct {
 	replies map[string]string
 	closes  int
 	nsync   int
+	reqIDs  []string // ids of the open / data / close requests the session sent
 }
 
 type pkt struct {
@@ -183,6 +184,7 @@ func (p *peer) handle(e elem) {
 		}
 		p.replies["msgerr"] = r
 	case name == "iq" && c.XMLName.Local == "open":
+		p.reqIDs = append(p.reqIDs, e.ID)
 		if p.openSilent {
 		} else if p.openOK {
 			p.feed(fmt.Sprintf(`<iq xmlns="jabber:client" type="result" id="%s" from="%s"/>`, e.ID, peerJID))
@@ -190,6 +192,7 @@ func (p *peer) handle(e elem) {
 			p.feed(fmt.Sprintf(`<iq xmlns="jabber:client" type="error" id="%s" from="%s"><error type="cancel"><not-acceptable xmlns="urn:ietf:params:xml:ns:xmpp-stanzas"/></error></iq>`, e.ID, peerJID))
 		}
 	case name == "iq" && c.XMLName.Local == "data":
+		p.reqIDs = append(p.reqIDs, e.ID)
 		p.packets = append(p.packets, pkt{c.Seq, c.SID, c.Data})
 		if p.dataErr {
 			p.feed(fmt.Sprintf(`<iq xmlns="jabber:client" type="error" id="%s" from="%s"><error type="cancel"><item-not-found xmlns="urn:ietf:params:xml:ns:xmpp-stanzas"/></error></iq>`, e.ID, peerJID))
@@ -199,6 +202,7 @@ func (p *peer) handle(e elem) {
 	case name == "message" && c.XMLName.Local == "data":
 		p.packets = append(p.packets, pkt{c.Seq, c.SID, c.Data})
 	case name == "iq" && c.XMLName.Local == "close":
+		p.reqIDs = append(p.reqIDs, e.ID)
 		p.closes++
 		switch p.closeMode {
 		case "err":
@@ -421,12 +425,20 @@ func runRecv(r *common.Run, maxbuf int, carrier string, ops []rop, class string)
 						r.Fail("deliver", "eof-before-drained", line(), fmt.Sprintf("%d acknowledged bytes were never delivered", unread))
 					}
 				} else {
-					obs = append(obs, "D"+common.Hex(x.b))
+					o := "D" + common.Hex(x.b)
 					got = append(got, x.b...)
 					unread -= len(x.b)
 					if unread < 0 {
 						unread = 0
 					}
+					if x.err != nil {
+						// an error together with data: a reader that stops at the error loses the rest
+						o += "+ERR"
+						if unread > 0 {
+							r.Fail("deliver", "error-returned-with-data-before-drained", line(), fmt.Sprintf("Read returned %d bytes together with %v while %d bytes are still buffered", len(x.b), x.err, unread))
+						}
+					}
+					obs = append(obs, o)
 				}
 			case <-time.After(watchdog):
 				obs = append(obs, "BLOCK")
@@ -1027,7 +1039,16 @@ func runTail(r *common.Run, opener bool, carrier string, n int, flush, peerClose
 	} else {
 		step(conn.Close)
 	}
-	p.sync()
+	if !p.sync() {
+		who := "local Close"
+		if peerCloses {
+			who = "the peer's close"
+		}
+		r.Fail("serve-continues", fmt.Sprintf("serve-stalled-after-close:peer=%v:flush=%v", peerCloses, flush), []string{fmt.Sprintf("%s pack 4 %s", r.Prop, common.Join(ops, ",")), fmt.Sprintf("#opener=%v carrier=%s n=%d", opener, carrier, n)},
+			"after "+who+" with "+fmt.Sprint(n)+" bytes written the serve loop no longer answers (the flush of the close path waits for an acknowledgement only the serve loop could deliver)")
+		r.Hist["problem"]++
+		return
+	}
 	var pk []string
 	var dec []byte
 	for _, q := range p.packets {
@@ -1111,4 +1132,58 @@ func runWrapQuick(r *common.Run) {
 	r.Line(fmt.Sprintf("recvfrom %d 0 %s", start, common.Join(toks, ",")), common.Join(obs, ","))
 	r.Case("wrap-quick", true, "wrap")
 	_ = want
+}
+
+// runLateReplies: a sender run (open, acknowledged writes, Close), then the peer
+// answers every request of that run AGAIN (a duplicate result and a late error
+// for the open, each data packet and the close): nobody waits for those any
+// more, they must not be handed to anybody, and the serve loop goes on.
+func runLateReplies(r *common.Run) {
+	p, err := newPeer()
+	if err != nil {
+		return
+	}
+	defer p.stop()
+	och := make(chan *ibb.Conn, 1)
+	go func() {
+		c, _ := p.h.OpenIQ(context.Background(), stanza.IQ{To: jid.MustParse(peerJID)}, p.rs.S, true, 4, "T")
+		och <- c
+	}()
+	var conn *ibb.Conn
+	p.pump(func() bool {
+		select {
+		case conn = <-och:
+			return true
+		default:
+			return false
+		}
+	})
+	if conn == nil {
+		return
+	}
+	done := make(chan error, 1)
+	go func() {
+		_, err := conn.Write([]byte("late replies"))
+		if err == nil {
+			err = conn.Close()
+		}
+		done <- err
+	}()
+	p.pump(func() bool {
+		select {
+		case <-done:
+			return true
+		default:
+			return false
+		}
+	})
+	lines := []string{r.Prop + " pack 4 w:" + common.HexS("late replies") + ",C", "#then a duplicate result and a late error for every request of the run"}
+	for _, id := range p.reqIDs {
+		p.feed(fmt.Sprintf(`<iq xmlns="jabber:client" type="result" id="%s" from="%s"/>`, id, peerJID))
+		p.feed(fmt.Sprintf(`<iq xmlns="jabber:client" type="error" id="%s" from="%s"><error type="cancel"><item-not-found xmlns="urn:ietf:params:xml:ns:xmpp-stanzas"/></error></iq>`, id, peerJID))
+	}
+	if !p.sync() {
+		r.Fail("serve-continues", "serve-stalled-after-late-reply:ibb", lines, "after late / duplicate replies to the open, data and close requests of a finished stream the serve loop no longer answers")
+	}
+	r.Case("late-replies", true, "late")
 }
